@@ -1870,11 +1870,11 @@ func init() {
 }
 
 // f1FileArgs: the payload fields of a font.file line (glyph data, maxp maxima, side tables, caret
-// slope) for a font in the class the byte-level model covers so far: TrueType outlines of simple
-// glyphs, no glyph names, no cmap, no layout tables, at least one timestamp.
+// slope, cmap subtables, glyph names) for a font in the class the byte-level model covers so far:
+// TrueType outlines of simple glyphs, no layout tables, at least one timestamp.
 func f1FileArgs(font *sfnt.Font) (string, bool) {
 	o, ok := font.Outlines.(*glyf.Outlines)
-	if !ok || o.Names != nil || font.CMapTable != nil || font.Gsub != nil || font.Gpos != nil || font.Gdef != nil ||
+	if !ok || font.Gsub != nil || font.Gpos != nil || font.Gdef != nil ||
 		(font.CreationTime.IsZero() && font.ModificationTime.IsZero()) || o.Maxp == nil || len(o.Glyphs) > 40 {
 		return "", false
 	}
@@ -1908,7 +1908,45 @@ func f1FileArgs(font *sfnt.Font) (string, bool) {
 	hhea, _ := (&hmtx.Info{CaretAngle: font.ItalicAngle / 180 * math.Pi}).Encode()
 	rise := int16(uint16(hhea[18])<<8 | uint16(hhea[19]))
 	run := int16(uint16(hhea[20])<<8 | uint16(hhea[21]))
-	return fmt.Sprintf("gly=%s mx=%s tabs=%s rr=%d:%d", strings.Join(gl, ","), f1IntsStr(mx), strings.Join(tabs, ","), rise, run), true
+	// cmap subtables (sorted by platform, encoding, language) and glyph names
+	cmt := "-"
+	if font.CMapTable != nil {
+		var keys []cmap.Key
+		for k := range font.CMapTable {
+			keys = append(keys, k)
+		}
+		sort.Slice(keys, func(i, j int) bool {
+			a, b := keys[i], keys[j]
+			if a.PlatformID != b.PlatformID {
+				return a.PlatformID < b.PlatformID
+			}
+			if a.EncodingID != b.EncodingID {
+				return a.EncodingID < b.EncodingID
+			}
+			return a.Language < b.Language
+		})
+		var parts []string
+		for _, k := range keys {
+			parts = append(parts, fmt.Sprintf("%d.%d.%d:%s", k.PlatformID, k.EncodingID, k.Language, hx(font.CMapTable[k])))
+		}
+		cmt = strings.Join(parts, ",")
+	}
+	gn := "-"
+	if o.Names != nil {
+		var parts []string
+		for _, nm := range o.Names {
+			parts = append(parts, f1HexS(nm))
+		}
+		gn = "n" + strings.Join(parts, ",")
+	}
+	return fmt.Sprintf("gly=%s mx=%s tabs=%s rr=%d:%d cmt=%s gn=%s", strings.Join(gl, ","), f1IntsStr(mx), strings.Join(tabs, ","), rise, run, cmt, gn), true
+}
+
+func b01Str(b bool) string {
+	if b {
+		return "yes"
+	}
+	return "no"
 }
 
 // f1GenFileFont draws a font of that class.
@@ -1917,16 +1955,11 @@ func f1GenFileFont(c *Ctx) f1FontRecipe {
 	for !rec.font.IsGlyf() || rec.font.NumGlyphs() > 40 || (rec.font.CreationTime.IsZero() && rec.font.ModificationTime.IsZero()) {
 		rec = f1GenFont(c)
 	}
-	if rec.rgl%3 == 1 {
-		rec.rgl++ // a glyph recipe without glyph names
+	if c.Rng.Chance(1, 4) { // no cmap table at all
+		rec.rcm, rec.font.CMapTable = "-", nil
 	}
-	n := rec.font.NumGlyphs()
-	old := rec.font.Outlines.(*glyf.Outlines)
-	o := f1BuildOutlines('g', n, rec.rgl).(*glyf.Outlines)
-	o.Widths = old.Widths
-	rec.font.Outlines = o
-	rec.rcm, rec.rgsub, rec.rgpos, rec.rgdef = "-", "-", "-", "-"
-	rec.font.CMapTable, rec.font.Gsub, rec.font.Gpos, rec.font.Gdef = nil, nil, nil, nil
+	rec.rgsub, rec.rgpos, rec.rgdef = "-", "-", "-"
+	rec.font.Gsub, rec.font.Gpos, rec.font.Gdef = nil, nil, nil
 	return rec
 }
 
@@ -1945,7 +1978,7 @@ func f1EmitFont(c *Ctx, rec f1FontRecipe, withDerive bool) {
 	}
 	if extra, ok := f1FileArgs(rec.font); ok {
 		c.Case(Verdict, "font.file", args+" "+extra, true)
-		c.Stat("font.file class", "TrueType, no cmap/names/layout")
+		c.Stat("font.file class", "TrueType, cmap="+b01Str(rec.font.CMapTable != nil)+" names="+b01Str(rec.font.Outlines.(*glyf.Outlines).Names != nil))
 	}
 	f1EmitFixed(c, args)
 	reps := 3
